@@ -15,10 +15,16 @@ def run(ctx, replay=None):
               dict(shape="star", max_env=1, flags="m,c,o,e", faults=False, env="Edit,Touch,DeleteArt,StripKey,ResaveArt,Replace,MakeCsr,EditProfile,Expire,SetIssuer"),
               dict(shape="chain", max_env=1, flags="m", extra="c,m;c,m,o;a;e,m", faults=False, native=True)]       # the CLI binary on the native filesystem
     else:
-        mc = [dict(shape=s, max_env=3, flagsets="NoAllFlagSets", invariants=inv, properties=[]) for s in ("chain", "star", "two")]
+        # (16 flag sets x three shapes at MaxEnv 3 is hours; the chain gets every flag set, the others the core sets)
+        mc = [dict(shape="chain", max_env=3, flagsets="NoAllFlagSets", invariants=inv, properties=[]),
+              dict(shape="star", max_env=3, flagsets="CoreFlagSets", invariants=inv, properties=[]),
+              dict(shape="two", max_env=3, flagsets="CoreFlagSets", invariants=inv, properties=[]),
+              dict(shape="two", max_env=2, flagsets="NoAllFlagSets", env="FullEnv", alt="TwoAlt", invariants=inv, properties=[])]
         ex = [dict(shape="chain", max_env=3, flags="m,c,o,e", faults=False),
               dict(shape="star", max_env=2, flags="m,c,o,e", faults=False),
               dict(shape="two", max_env=2, flags="m,c,o,e", faults=False, env="Edit,Touch,DeleteArt,Truncate,StripKey,ResaveArt,Replace,MakeCsr,SetIssuer"),
               dict(shape="chain", max_env=2, flags="m", extra="c,m;c,m,o;a;e,m;c,e,m,o", faults=False, native=True),
-              dict(shape="star", max_env=2, flags="m", extra="c,m;a", faults=False, native=True)]
+              dict(shape="star", max_env=2, flags="m", extra="c,m;a", faults=False, native=True),
+              dict(shape="chain", max_env=0, flags="m,c,o,e", faults=False, random_walks=30000, walk_len=14,
+                   env="Edit,Touch,DeleteArt,Truncate,StripKey,ResaveArt,Replace,MakeCsr,EditProfile,Expire,SetIssuer,RemoveConfig,AddConfig")]
     return repo.run_lifecycle(ctx, "C10", mc, ex, "model_checking", ASSUME, replay, extra_cov=extra)
